@@ -92,6 +92,16 @@ func init() {
 		bits := e.concreteInt(a[1], "nd.DecN bits")
 		return mkD(e.rangedVar(strArg(a[0], "nd.DecN"), big.NewInt(0), pow2(bits)))
 	})
+	reg(P+"IntS", func(e *Exec, _ *ssa.Function, a []Value) Value {
+		bits := e.concreteInt(a[1], "nd.IntS bits")
+		lim := pow2(bits)
+		return mkI(e.rangedVar(strArg(a[0], "nd.IntS"), new(big.Int).Add(new(big.Int).Neg(lim), big.NewInt(1)), lim))
+	})
+	reg(P+"DecS", func(e *Exec, _ *ssa.Function, a []Value) Value {
+		bits := e.concreteInt(a[1], "nd.DecS bits")
+		lim := pow2(bits)
+		return mkD(e.rangedVar(strArg(a[0], "nd.DecS"), new(big.Int).Add(new(big.Int).Neg(lim), big.NewInt(1)), lim))
+	})
 	reg(P+"Time", func(e *Exec, _ *ssa.Function, a []Value) Value {
 		return &TimeVal{ns: e.rangedVar(strArg(a[0], "nd.Time"), timeLo, timeHi)}
 	})
@@ -157,7 +167,7 @@ func init() {
 	})
 	reg(P+"Observe", func(e *Exec, _ *ssa.Function, a []Value) Value {
 		v := a[1]
-		if itf, ok := v.(Iface); ok && itf.t != errValType {
+		if itf, ok := v.(Iface); ok && itf.t != errValType && itf.t != nil {
 			v = itf.v
 		}
 		e.observed = append(e.observed, obsRec{name: strArg(a[0], "nd.Observe name"), val: v})
